@@ -281,6 +281,16 @@ func vH_C18_iter() {
 			want = append(want, i)
 		}
 	}
+	// optionally one failing file call while the iterator is open: whatever it
+	// delivers, it must still terminate cleanly
+	faulty := false
+	if pre.f != nil && vParam("iterfault") == 1 {
+		if k := vChoose("iter-fail-at", 0, 3); k > 0 {
+			pre.f.failAt = k
+			faulty = true
+			vTrace("file-fault-armed")
+		}
+	}
 	calls := vChoose("calls", 0, len(m.ents)+2)
 	got := 0
 	closed := false
@@ -312,6 +322,13 @@ func vH_C18_iter() {
 			vAssert("next-after-end-is-false", !ok)
 			continue
 		}
+		if faulty {
+			// contents under a fault are C07's subject; here only termination
+			if !ok {
+				exhausted = true
+			}
+			continue
+		}
 		if got < len(want) {
 			vAssert("next-delivers", ok)
 			if ok {
@@ -334,7 +351,12 @@ func vH_C18_iter() {
 		closed = true
 	}
 	vAssert("next-after-close-false", !it.Next())
-	vAssert("iter-err-nil", it.Err() == nil)
+	if !faulty {
+		vAssert("iter-err-nil", it.Err() == nil)
+	} else {
+		pre.f.failAt = 0
+		vCover("iterated-under-fault")
+	}
 	// a read-only statistics call racing with the producer's release
 	c.AllocStats()
 	vWaitIdle()
